@@ -126,6 +126,32 @@ pub fn exec(line: &str) -> String {
         }
         ["p_c08", hd, he] => p_c08(&text!(hd), &text!(he)),
         ["p_c17", hd] => p_c17(&text!(hd)),
+        ["p_keeps", s0, a, c] => {
+            let (s0, a, c) = (shape!(s0), shape!(a), shape!(c));
+            let m = json_shape::verif::merger(a.clone(), c.clone()).unwrap();
+            let mut out = String::from("ok");
+            if s0.is_subset(&a) && !s0.is_subset(&m) {
+                out = format!("violated keeps: {} in {} but not in {}", sexp(&s0), sexp(&a), sexp(&m));
+            }
+            if !c.is_subset(&m) {
+                out = format!("violated new: {} not in {}", sexp(&c), sexp(&m));
+            }
+            out
+        }
+        ["p_c03", rest @ ..] => {
+            let mut srcs = Vec::new();
+            for h in rest {
+                srcs.push(text!(h));
+            }
+            p_c03(&srcs)
+        }
+        ["p_c09", k, rest @ ..] => {
+            let mut srcs = Vec::new();
+            for h in rest {
+                srcs.push(text!(h));
+            }
+            p_c09(k.parse().unwrap_or(1), &srcs)
+        }
         ["superset", a, h] => b(shape!(a).is_superset(&text!(h))),
         ["supersetchk", a, h] => match shape!(a).is_superset_checked(&text!(h)) {
             Ok(x) => format!("ok {}", b(x)),
@@ -173,6 +199,58 @@ fn p_c08(d: &str, e: &str) -> String {
         return "violated: array structure".into();
     }
     format!("ok {} {}", sexp(&s1), sexp(&s2))
+}
+
+/// C03 evaluated on the implementation: every source is accepted by the merged shape, three ways.
+fn p_c03(srcs: &[String]) -> String {
+    let Ok(s) = JsonShape::from_sources(srcs) else { return "skip".into() };
+    for (i, d) in srcs.iter().enumerate() {
+        let Ok(sd) = JsonShape::from_str(d) else { return "skip".into() };
+        if !sd.is_subset(&s) {
+            return format!("violated: i={i} from_str(d_i).is_subset(from_sources(d)) is false; {} vs {}", sexp(&sd), sexp(&s));
+        }
+        if !s.is_superset(d) {
+            return format!("violated: i={i} is_superset false");
+        }
+        if s.is_superset_checked(d) != Ok(true) {
+            return format!("violated: i={i} is_superset_checked not Ok(true)");
+        }
+    }
+    if !s.is_subset(&s) {
+        return "violated: merged shape not a subset of itself".into();
+    }
+    "ok".into()
+}
+
+/// C09 evaluated on the implementation: the last source repeated k more times changes neither the
+/// shape (after the first repetition) nor, as reported through the printed shapes, its meaning.
+fn p_c09(k: usize, srcs: &[String]) -> String {
+    let Ok(base) = JsonShape::from_sources(srcs) else { return "skip".into() };
+    let mut h = srcs.to_vec();
+    let mut shapes = vec![base.clone()];
+    // every document of the history is re-fed in turn, k times each
+    for d in srcs {
+        let mut hh = h.clone();
+        let mut prev: Option<JsonShape> = None;
+        for rep in 0..k {
+            hh.push(d.clone());
+            let Ok(s) = JsonShape::from_sources(&hh) else { return "violated: from_sources failed on a repetition".into() };
+            if let Some(p) = &prev {
+                if *p != s {
+                    return format!("violated: shape still changing at repetition {} of {}: {} -> {}", rep + 1, hex(d.as_bytes()), sexp(p), sexp(&s));
+                }
+            }
+            prev = Some(s);
+        }
+        shapes.push(prev.unwrap());
+    }
+    h.clear();
+    let mut out = "ok".to_string();
+    for s in shapes {
+        out.push(' ');
+        out.push_str(&sexp(&s).replace(' ', "_"));
+    }
+    out
 }
 
 /// C17 evaluated on the implementation: the shape of a document is recomputed from the shapes the
